@@ -1368,12 +1368,18 @@ class Scene(Geometry3D):
         else:
             # otherwise get a copy of the camera
             camera = self.camera.copy()
+        if not hasattr(self, "_lights") or self._lights is None:
+            # don't generate lights just to copy them
+            lights = None
+        else:
+            lights = deepcopy(self._lights)
         # create a new scene with copied geometry and graph
         copied = Scene(
             geometry=geometry,
             graph=self.graph.copy(),
             metadata=deepcopy(self.metadata),
             camera=camera,
+            lights=lights,
         )
         return copied
 
